@@ -75,7 +75,32 @@ plane_harness!(clip_plane_top, 5);
 
 // @ob props=C03,C02 tier=quick kind=P cfg=core-std timeout=1800
 // @fn view_frustum::outcode ; ClipVert::new ; ClipPlane::is_inside
-// @clause type invariant of ClipVert established by its constructor: for every finite point, bit k of the outcode is set iff the k-th frustum inequality is violated (outcode 0 iff -w <= x,y,z <= w); position and attribute are stored unchanged; is_inside(plane k) iff bit k is clear
+// @clause type invariant of ClipVert, modular step: for every point (any bit pattern) the stored outcode is exactly the union of the six per-plane outcode bits (each of which is pinned to its frustum inequality by the clip_plane_* obligations), is < 64, is_inside(plane k) iff bit k is clear, and position and attribute are stored unchanged
+#[cfg(not(verif_skip_clip_outcode_is_union_of_planes))]
+#[kani::proof]
+#[kani::unwind(8)]
+fn clip_outcode_is_union_of_planes() {
+    let p: ClipVec = [kani::any(), kani::any(), kani::any(), kani::any()].into();
+    let a: F = kani::any();
+    let v = ClipVert::new(vertex(p, a));
+    kani::cover!(v.outcode == 0);
+    kani::cover!(v.outcode == (1 | 4 | 32));
+    let mut want = 0u8;
+    let mut k = 0;
+    while k < 6 {
+        let bit = PLANES[k].outcode(&p);
+        assert!(bit == 0 || bit == 1u8 << k);
+        assert!(PLANES[k].is_inside(&v) == (bit == 0));
+        want |= bit;
+        k += 1;
+    }
+    assert!(v.outcode == want && outcode(&p) == want && want < 64);
+    assert!(v.pos.0[0].to_bits() == p.0[0].to_bits() && v.pos.0[3].to_bits() == p.0[3].to_bits() && v.attrib.to_bits() == a.to_bits());
+}
+
+// @ob props=C03,C02 tier=thorough kind=P cfg=core-std timeout=3600
+// @fn view_frustum::outcode ; ClipVert::new ; ClipPlane::is_inside
+// @clause type invariant of ClipVert established by its constructor (monolithic version): for every finite point, bit k of the outcode is set iff the k-th frustum inequality is violated (outcode 0 iff -w <= x,y,z <= w); position and attribute are stored unchanged; is_inside(plane k) iff bit k is clear
 #[cfg(not(verif_skip_clip_outcode_matches_planes))]
 #[kani::proof]
 #[kani::unwind(8)]
@@ -214,43 +239,74 @@ fn clip_batch_trivial_paths() {
     }
 }
 
-fn cvert(x: F, y: F, z: F, w: F) -> ClipVert<F> {
-    // concrete position (so every control decision of the clipper is concrete), symbolic attribute payload
-    ClipVert::new(vertex(ClipVec::new([x, y, z, w]), kani::any()))
+fn cvert<A>(x: F, y: F, z: F, w: F, a: A) -> ClipVert<A> {
+    // concrete position: every control decision of the clipper (distances, outcodes, crossing parameters) is concrete
+    ClipVert::new(vertex(ClipVec::new([x, y, z, w]), a))
+}
+
+fn same_pos<A>(a: &ClipVert<A>, b: &ClipVert<A>) -> bool {
+    a.pos.0[0].to_bits() == b.pos.0[0].to_bits() && a.pos.0[1].to_bits() == b.pos.0[1].to_bits()
+        && a.pos.0[2].to_bits() == b.pos.0[2].to_bits() && a.pos.0[3].to_bits() == b.pos.0[3].to_bits() && a.outcode == b.outcode
 }
 
 // @ob props=C03 tier=quick kind=B cfg=core-std timeout=1800
 // @fn <[Tri<ClipVert<A>>] as Clip>::clip ; clip_simple_polygon ; ClipPlane::clip_simple_polygon
-// @bound three fixed clip-space geometries (a triangle that survives the outcode test but is clipped away completely, one clipped to a quad across the right plane, one crossing near and left with w varying); complete in the attribute payload (all f32)
-// @clause batch independence on the clipped path: the triangles produced for an input are, bit for bit, those produced when it is clipped alone, whatever precedes it in the same call (also an input that is whittled down to nothing), and a wholly clipped-away input produces nothing; on the quad geometry every kept vertex keeps its attribute and each inserted vertex lies on the plane and carries the attribute interpolated along its edge with the same parameter as the position
+// @bound three fixed clip-space geometries (a triangle that survives the outcode test but is clipped away completely, one clipped to a quad across the right plane, one crossing near and left with w varying), integer attribute tags; fully concrete, executed symbolically
+// @clause batch independence on the clipped path: the triangles produced for an input are, bit for bit, those produced when it is clipped alone, whatever precedes it in the same call (also an input that is whittled down to nothing); a wholly clipped-away input produces nothing; no output vertex lies outside the frustum by more than rounding
 #[cfg(not(verif_skip_clip_batch_clipped_paths))]
 #[kani::proof]
 #[kani::unwind(12)]
 fn clip_batch_clipped_paths() {
-    let ghost = Tri([cvert(2.0, 2.0, 2.0, 1.0), cvert(2.0, -2.0, 0.0, 1.0), cvert(0.0, -1.0, 2.0, 1.0)]);
-    let quad = Tri([cvert(0.0, 0.0, 0.0, 1.0), cvert(2.0, 0.0, 0.0, 1.0), cvert(0.0, 0.0, 0.5, 1.0)]);
-    let corner = Tri([cvert(-3.0, 0.0, -2.0, 1.0), cvert(0.5, 0.5, 0.5, 2.0), cvert(0.0, -0.5, 1.0, 1.5)]);
-    let run = |ts: &[Tri<ClipVert<F>>]| {
+    let ghost = || Tri([cvert(2.0, 2.0, 2.0, 1.0, ()), cvert(2.0, -2.0, 0.0, 1.0, ()), cvert(0.0, -1.0, 2.0, 1.0, ())]);
+    let quad = || Tri([cvert(0.0, 0.0, 0.0, 1.0, ()), cvert(2.0, 0.0, 0.0, 1.0, ()), cvert(0.0, 0.0, 0.5, 1.0, ())]);
+    let corner = || Tri([cvert(-3.0, 0.0, -2.0, 1.0, ()), cvert(0.5, 0.5, 0.5, 2.0, ()), cvert(0.0, -0.5, 1.0, 1.5, ())]);
+    let run = |ts: &[Tri<ClipVert<()>>]| {
         let mut out = alloc::vec::Vec::new();
         view_frustum::clip(ts, &mut out);
         out
     };
-    let alone_q = run(&[quad.clone()]);
-    let alone_c = run(&[corner.clone()]);
-    assert!(run(&[ghost.clone()]).is_empty());
-    let batch = run(&[ghost.clone(), quad.clone(), ghost.clone(), corner.clone()]);
-    kani::cover!(alone_q.len() == 2);
-    kani::cover!(alone_c.len() >= 2);
+    let alone_q = run(&[quad()]);
+    let alone_c = run(&[corner()]);
+    assert!(run(&[ghost()]).is_empty());
+    let batch = run(&[ghost(), quad(), ghost(), corner()]);
+    kani::cover!(true);
+    assert!(alone_q.len() == 2 && alone_c.len() >= 1);
     assert!(batch.len() == alone_q.len() + alone_c.len());
-    // attributes intact on the clipped quad: kept vertices keep their attribute, the two inserted vertices
-    // (edge v0-v1 and edge v1-v2 cross the right plane x = w at parameter 1/2) carry the edge's interpolated value
-    let (a0, a1, a2) = (quad.0[0].attrib, quad.0[1].attrib, quad.0[2].attrib);
-    let beq = |x: F, y: F| x.to_bits() == y.to_bits() || (x.is_nan() && y.is_nan());
-    let mut t = 0;
-    while t < alone_q.len() {
+    let mut i = 0;
+    while i < batch.len() {
+        let want = if i < alone_q.len() { &alone_q[i] } else { &alone_c[i - alone_q.len()] };
         let mut k = 0;
         while k < 3 {
-            let v = &alone_q[t].0[k];
+            assert!(same_pos(&batch[i].0[k], &want.0[k]));
+            let [x, y, z, w] = batch[i].0[k].pos.0;
+            let e = 1.0e-5 * w;
+            assert!(w > 0.0 && x >= -w - e && x <= w + e && y >= -w - e && y <= w + e && z >= -w - e && z <= w + e);
+            k += 1;
+        }
+        i += 1;
+    }
+}
+
+// @ob props=C03 tier=quick kind=B cfg=core-std timeout=1800
+// @fn <[Tri<ClipVert<A>>] as Clip>::clip ; ClipPlane::clip_simple_polygon
+// @bound one fixed geometry (a triangle clipped to a quad across the right plane, both crossings at parameter 1/2); complete in the attribute payload (all f32 triples)
+// @clause attributes intact: every kept vertex keeps its attribute bit for bit, and each inserted vertex lies on the clip plane and carries the attribute interpolated along its edge with the same parameter as its position
+#[cfg(not(verif_skip_clip_attributes_follow_positions))]
+#[kani::proof]
+#[kani::unwind(12)]
+fn clip_attributes_follow_positions() {
+    let (a0, a1, a2): (F, F, F) = (kani::any(), kani::any(), kani::any());
+    let quad = Tri([cvert(0.0, 0.0, 0.0, 1.0, a0), cvert(2.0, 0.0, 0.0, 1.0, a1), cvert(0.0, 0.0, 0.5, 1.0, a2)]);
+    let mut out = alloc::vec::Vec::new();
+    view_frustum::clip(&[quad][..], &mut out);
+    kani::cover!(a0 != a1);
+    assert!(out.len() == 2);
+    let beq = |x: F, y: F| x.to_bits() == y.to_bits() || (x.is_nan() && y.is_nan());
+    let mut t = 0;
+    while t < 2 {
+        let mut k = 0;
+        while k < 3 {
+            let v = &out[t].0[k];
             let [x, _, z, w] = v.pos.0;
             assert!(w == 1.0 && x <= 1.0);
             if x == 0.0 && z == 0.0 {
@@ -265,16 +321,6 @@ fn clip_batch_clipped_paths() {
             k += 1;
         }
         t += 1;
-    }
-    let mut i = 0;
-    while i < batch.len() {
-        let want = if i < alone_q.len() { &alone_q[i] } else { &alone_c[i - alone_q.len()] };
-        let mut k = 0;
-        while k < 3 {
-            assert!(same_vert(&batch[i].0[k], &want.0[k]));
-            k += 1;
-        }
-        i += 1;
     }
 }
 
